@@ -22,8 +22,10 @@ A. luna.gateware.usb.usb3.application.request.SuperSpeedSetupDecoder
    bytes 2-3 / 4-5 / 6-7.  Any other pulse is a violation.
 
 B. luna.gateware.usb.usb3.application.descriptor.GetDescriptorHandler(collection)
-   Workload: collection of 1-7 descriptors (type, index, 1..90 bytes; plain list of tuples, or a real
-   usb_protocol DeviceDescriptorCollection filled with the same raw descriptors), 14-26 requests: value = (type << 8 | index)
+   Workload: usb_domain "ss" (default, given or omitted), "sync" (no DomainRenamer) or another name, the bench clocked on that
+   domain with the other two domains present as bystanders on unrelated clocks; collection of 1-7 descriptors (type, index,
+   1..90 bytes, in every fifth collection one of 255..1024 bytes; plain list of tuples, or a real usb_protocol
+   DeviceDescriptorCollection filled with the same raw descriptors), 14-26 requests: value = (type << 8 | index)
    present, absent, differing in one bit from a present one, or an alias (type or index alone, mixed from two descriptors); wLength in {0, 1..5, len-1, len, len+1, len+8, 256*k + (0..len),
    0xFFFF, random}; value / length set 0-3 cycles before the one-cycle `start`; `tx.ready` profiles (always / random /
    bursty / low until valid / low on the last word).
@@ -35,7 +37,7 @@ B. luna.gateware.usb.usb3.application.descriptor.GetDescriptorHandler(collection
 Deviations from DESIGN section 7: none in substance; the "non-setup packet between a short setup packet and the next one"
 pattern is generated on purpose and both of its consequences (false report, missed SETUP) have their own mechanism names.
 
-Findings (findings/C48.md).  Open: a setup-flagged packet that is aborted by `rx_bad` in the cycle of its first word is not
+Findings (findings/C48.md; both repaired in /repo, the mechanisms stay in the check).  A setup-flagged packet that is aborted by `rx_bad` in the cycle of its first word is not
 abandoned (WAIT_FOR_FIRST takes the word without looking at rx_bad): the next good 4-byte packet completes a bogus SETUP
 (`first_word_aborted_in_same_cycle_completed_by_later_packet`), the host's SETUP retry is lost
 (`setup_missed_after_first_word_aborted_in_same_cycle`).  Fixed in d31e798: a setup-flagged packet of 4..7 bytes that is reported good leaves the
@@ -43,6 +45,10 @@ decoder waiting for a second word; the next 4-byte packet completes a bogus SETU
 packet`) or the next correct SETUP is lost (`setup_missed_after_short_setup_packet`).  The classifier is narrow: the false
 report must consist of exactly the first word of the short packet plus the 4-byte packet, the miss must directly follow a
 good short setup packet (only sub-word packets in between).  With the proposed one-line fix the check holds.
+
+Coverage-audit additions: usb_domain varied (mutations caught: generators built with domain="ss" regardless of usb_domain,
+DomainRenamer applied only for "ss"), descriptors of 255..1024 bytes (mutation caught: tx_length 8 bits wide).  rx_good and
+rx_bad in the same cycle are still not generated: the statement does not say which one wins.
 
 Mutations (93 repository tests pass for each), all caught by the quick tier: the verdict-abandon of PARSE_SECOND made an
 Elif of the "second word" branch, and the same abandon only when no word is present (both park a setup packet whose last
@@ -77,7 +83,8 @@ REQUIRED_BINS = ["setup8_good", "setup8_bad", "setup8_aborted", "setup_short_goo
                  "good_packet_after_coincident_bad_setup8", "setup_retry_after_coincident_bad_setup8",
                  "desc_known", "desc_unknown", "desc_unknown_one_bit_off", "desc_unknown_alias", "wlength_0", "wlength_lt_len", "wlength_eq_len", "wlength_gt_len",
                  "wlength_len_plus_256", "wlength_cuts_mid_word", "desc_len_not_multiple_of_4", "tx_stalled", "tx_stall_on_last_word",
-                 "collection_real", "collection_list", "single_descriptor_collection"]
+                 "collection_real", "collection_list", "single_descriptor_collection",
+                 "usb_domain_ss", "usb_domain_sync", "usb_domain_other", "desc_answer_gt_255_bytes"]
 REQUIRED_EVENTS = ["packets_sent", "received_strobes", "fields_compared", "descriptor_requests", "descriptor_bytes_compared",
                    "stalls_seen", "tx_length_compared", "decoder_cycles", "handler_cycles"]
 ASSUMPTIONS = ["rx_bad may accompany any payload word (then the packet ends there) or follow the final word; rx_good follows the final word "
@@ -401,6 +408,7 @@ def make_collection(rng, res):
     n = rng.choice([1, 2, 3, 3, 4, 5, 7])
     keys = set()
     descs = []
+    long_one = rng.random() < 0.2
     while len(descs) < n:
         t = rng.choice([1, 2, 3, 3, 6, 15, 0x21, 0x22, rng.randint(1, 255)])
         i = rng.choice([0, 0, 1, 2, 3, rng.randint(0, 255)])
@@ -412,6 +420,8 @@ def make_collection(rng, res):
             continue
         keys.add((t, i))
         ln = rng.choice(COMMON_LENS + [rng.randint(1, 90)])
+        if long_one and not descs:
+            ln = rng.choice([255, 256, 256, 257, 260, 300, 511, 512, 513, 700, 1023, 1024])     # longer than one byte can count
         body = bytes(rng.randrange(256) for _ in range(ln))
         if ln >= 2:
             body = bytes([ln & 0xFF, t]) + body[2:]     # looks like a descriptor; irrelevant for the handler
@@ -436,14 +446,35 @@ def handler_session(rng, res):
         coll = list(descs)
         table = {(t, i): body for t, i, body in descs}
         res.bin("collection_list")
-    dut = GetDescriptorHandler(coll)
+    # usb_domain: the default "ss", "sync" (the branch without DomainRenamer) or another name.  The handler sits in a rig that
+    # also contains the two other domains as bystanders with their own, unrelated clocks: logic left behind in "sync" / "ss"
+    # would run on the wrong clock instead of failing to elaborate.
+    from amaranth import Elaboratable, Module, Signal, ClockDomain
+    domain = rng.choice(["ss", "ss", "sync", "sync", "usb", "fast"])
+    res.bin("usb_domain_ss" if domain == "ss" else "usb_domain_sync" if domain == "sync" else "usb_domain_other")
+    explicit = domain != "ss" or rng.random() < 0.5
+    dut = GetDescriptorHandler(coll, usb_domain=domain) if explicit else GetDescriptorHandler(coll)
+    bystanders = [d for d in ("sync", "ss", "usb") if d != domain][:2]
+
+    class Rig(Elaboratable):
+        def elaborate(self, platform):
+            m = Module()
+            m.submodules.dut = dut
+            for d in bystanders:
+                m.domains += ClockDomain(d)
+                c = Signal(8, name="bystander_" + d)
+                m.d[d] += c.eq(c + 1)
+            return m
+
     tx = dut.tx
     nreq = rng.randint(14, 26)
-    b = Bench(dut, domain="ss", freq=125e6, max_cycles=nreq * 400 + 500)
+    maxlen = max(len(v) for v in table.values())
+    b = Bench(Rig(), domain=domain, freq=125e6, clocks={bystanders[0]: 125e6 / 3.1, bystanders[1]: 125e6 * 0.43},
+              max_cycles=nreq * (400 + 4 * maxlen) + 500)
     b.watch(tx.valid, tx.ready, tx.last, tx.payload, dut.tx_length, dut.stall)
     ready_profile = rng.choice(["always", "random", "random", "bursty", "low_until_valid", "stall_last"])
     p_ready = rng.choice([0.3, 0.6, 0.85])
-    res.sig(sorted(table.items()), use_real, ready_profile, p_ready)
+    res.sig(sorted(table.items()), use_real, ready_profile, p_ready, domain, explicit)
     keys = sorted(table)
 
     S = {"words": [], "in_stream": False, "prev": None, "first_cycle": None, "tx_length": None, "stalls": [],
@@ -578,6 +609,8 @@ def handler_session(rng, res):
                     res.bin("wlength_cuts_mid_word")
                 if ln % 4:
                     res.bin("desc_len_not_multiple_of_4")
+                if len(want) > 255:
+                    res.bin("desc_answer_gt_255_bytes")
                 if stalls:
                     res.violation("stall_for_known_descriptor", "%s: stall at %s" % (ctx, stalls))
                 words = S["words"]
@@ -633,7 +666,7 @@ def handler_session(rng, res):
     b.add_monitor(monitor)
     b.run()
     res.cycles += b.cycle
-    return {"descriptors": [(t, i, len(d)) for (t, i), d in sorted(table.items())], "real_collection": use_real,
+    return {"descriptors": [(t, i, len(d)) for (t, i), d in sorted(table.items())], "real_collection": use_real, "usb_domain": domain,
             "ready": ready_profile, "first_requests": first}
 
 
